@@ -108,6 +108,10 @@ class Distribution(Density, ABC):
         
         # If Geometry dimension is None, update it with the inferred dimension
         if inferred_dim and self._geometry.par_dim is None: 
+            if self.is_cond:
+                # The dimension may still change once the remaining conditioning variables are given:
+                # report the current guess without storing it on the object (copies share the stored geometry)
+                return _DefaultGeometry1D(grid=inferred_dim)
             self.geometry = inferred_dim
 
         if self._geometry.par_shape is None:
